@@ -26,7 +26,7 @@ REVIEWED = {
         'private shim gadget: every in-crate validity circuit calls eval with exactly arity() inputs and wire_values has arity() rows',
     '<flp::QueryShimGadget<F> as flp::Gadget<F>>::eval|call:index_mut|φ.wire_values|RangeTo{len($2)}':
         'private shim gadget: every in-crate validity circuit calls eval with exactly arity() inputs and wire_values has arity() rows',
-    '<flp::types::MultihotCountVec<F, S> as flp::Type>::encode_measurement::{closure#1}|call:unwrap|FieldElementWithIntegerExt::valid_integer_try_from(($2 as usize))':
+    '<flp::types::MultihotCountVec<F, S> as flp::Type>::encode_measurement::{closure}|call:unwrap|FieldElementWithIntegerExt::valid_integer_try_from(($2 as usize))':
         "the converted value is `bit as usize` in {0, 1}, which fits every field's integer type",
     '<flp::types::MultihotCountVec<F, S> as flp::Type>::truncate|call:index|$2|RangeTo{$1.length}':
         'truncate_call_check pins len(input) to input_len() = length + bits_for_weight >= length',
@@ -34,7 +34,7 @@ REVIEWED = {
         'std::ops::Index impl (indexing contract; not a Result-returning operation), reached only through class-hierarchy resolution',
     '<vdaf::poplar1::VerifierState<F> as codec::Encode>::encode|call:expect|<impl TryFrom<usize> for u32>::try_from(len($1.output_share))|"Couldn\'t convert output_share length to u32"':
         'documented expect: output_share has one element per candidate prefix and Poplar1AggregationParam holds at most u32::MAX prefixes',
-    '<vdaf::prio2::Prio2 as vdaf::Client<16>>::shard::{closure#0}|call:clone_from_slice|<impl IndexMut<I> for [T]>::index_mut($2, RangeFull{})|^^1':
+    '<vdaf::prio2::Prio2 as vdaf::Client<16>>::shard::{closure}|call:clone_from_slice|<impl IndexMut<I> for [T]>::index_mut($2, RangeFull{})|^^1':
         'share_data is the `dimension`-long data part handed out by unpack_proof_mut and input has measurement.len() == input_len elements (checked at the top of shard)',
     '<vdaf::prio3::Prio3<T, P, SEED_SIZE> as vdaf::Aggregator<SEED_SIZE, 16>>::verify_init|call:index|Prio3::<T, P, SEED_SIZE>::derive_query_rands($1, $2, $3, $6)|Range{(Flp::query_rand_len($1.typ) Mul (<impl Iterator for Range<A>>::next(φ) as Some).0), ((1 Add (<impl Iterator for Range<A>>::next(φ) as Some).0) Mul Flp::q':
         'query_rands has query_rand_len() * num_proofs() elements (into_field_vec of exactly that length) and p ranges over 0..num_proofs()',
@@ -60,7 +60,7 @@ REVIEWED = {
         'length-prefix back-patching over a growing Vec: len_offset was recorded before a placeholder of the prefix width was pushed, so bytes.len() >= len_offset + width at the later reads (the reconstructed terms cannot distinguish the two len() reads)',
     'codec::encode_u8_items|overflow:Sub|len($1)|len($1)':
         'length-prefix back-patching over a growing Vec: len_offset was recorded before a placeholder of the prefix width was pushed, so bytes.len() >= len_offset + width at the later reads (the reconstructed terms cannot distinguish the two len() reads)',
-    'flp::Flp::query::{closure#0}|call:index|^^1|Range{^^1, ((Gadget::arity($2.0.pointer) Add gadget_poly_len(Gadget::degree($2.0.pointer), wire_poly_len(Gadget::calls($2.0.pointer)))) Add ^^1)}':
+    'flp::Flp::query::{closure}|call:index|^^1|Range{^^1, ((Gadget::arity($2.0.pointer) Add gadget_poly_len(Gadget::degree($2.0.pointer), wire_poly_len(Gadget::calls($2.0.pointer)))) Add ^^1)}':
         'len(proof) was pinned to proof_len() = sum(arity + gadget_poly_len) by the guard at the top of query; the closure walks exactly that layout',
     'flp::Flp::query|call:unwrap|TryFrom::try_from(wire_poly_len(Gadget::calls((Iterator::next(φ) as Some).0.0.0.pointer)))':
         "wire_poly_len(calls) <= proof_len, and a circuit whose wire polynomial length does not fit the field's integer type cannot be instantiated (NTT size limit 2^20)",
